@@ -240,6 +240,7 @@ def hdLine (d : HDDrv) (lineNo : Nat) (ts : List String) : HDDrv × List String 
         (if last.isNone then [] else ["C07.last-action-not-cleared-between-hands"]))
       ({ d with model := some (reset m), handOpen := false, reqView := none, answered := [] }, out)
     | _, _, _ => (d, [s!"BADLINE {lineNo} hd-between"])
+  | "abort" :: _ => ({ d with dead := true, cnt := d.cnt.bump "dropped-by-harness" }, [])
   | "withheld" :: rest =>
     -- one asked player stayed silent; everybody else answered; the response time-out was waited out
     let adv := (kv post "advanced").getD "0" == "1"
